@@ -13,7 +13,7 @@ import (
 
 func init() {
 	register(&Def{ID: "C14", Engine: "E1", Run: runC14,
-		Rule: "cross product: format {gob (direct and through encoding/gob), npy, csv, protobuf, flatbuffers} x every element type x shapes of rank 0-4 (scalars, length-one axes) x layouts {C, F, Fc, T, S, SS, ST, M} x masks {none, every mask over <= 4 elements, two patterns on larger} x value sets {injective, edge (extremes, non-finite, -0, empty/unicode strings)}; " +
+		Rule: "cross product: format {gob (direct and through encoding/gob), npy, csv, protobuf, flatbuffers} x every element type x shapes of rank 0-4 (scalars, length-one axes) x layouts {C, F, Fc, T, S, SS, ST, M} x masks {none, every mask over <= 4 elements, two patterns on larger} x value sets {injective, edge (extremes, non-finite, -0, empty/unicode strings, strings with separators, quotes, newlines, tabs, outer blanks and a leading comment character)}; " +
 			"oracle: decode(encode(t)) has the same element type, shape and logical elements (and mask where the format carries one and the tensor is contiguous) and every coordinate of it is readable, it satisfies the metadata invariant (order flag consistent with strides) and - used as a starting state - flattens (Clone+Reshape) and copies (Copy) to the same elements - or encode or decode refuses; never different data. non-trivial = >= 2 elements",
 		Assume: []string{"a refusal (error or panic) by encode or decode is accepted for any input", "CSV is judged for rank <= 2 numeric tensors; masked elements of formats that write a fill value are not compared"}})
 }
